@@ -218,8 +218,8 @@ func c09Scenarios(tier string) []e1lib.Scenario {
 		if s.par*s.k >= 8 {
 			bound = 3
 		}
-		for _, ic := range []int{0, s.k} {
-			if ic == 0 && s.k == 0 {
+		for ici, ic := range []int{0, s.k} {
+			if ici == 1 && s.k == 0 { // capacity 0 twice: the empty input is run once
 				continue
 			}
 			base := forkh.Cfg{Par: s.par, Input: seq1(s.k), InCap: ic, Stop: -1, Stop2: -1}
